@@ -317,7 +317,7 @@ pub fn plan(ctx: &Ctx) -> Plan {
             (Box::new(PerftPlay { max_depth: t.pick(3, 4) }), t.pick(30_000, 400_000)),
             (Box::new(MovegenSmall), 1),
             (Box::new(super::cli::PerftCli), t.pick(96, 2_000)),
-            (Box::new(crate::fuzzdrv::target("rules_diff")), t.pick(0, 150_000)),
+            (Box::new(crate::fuzzdrv::target("rules_diff")), t.pick(0, 20_000)),
         ],
         rule: "positions come from weighted random legal play (<=120 plies) from 45 adversarial start positions, \
                from a constructive random builder of legal positions (two kings, <=14 more men, castling rights with \
